@@ -1594,6 +1594,12 @@ class DynamicBase(BaseSpaceImpl):
             root = dynsub.rootspace
             root.parent.clear_itemspace_at(root.argvalues_if)
 
+    def clear_tree_rootitems(self):
+        # ItemSpaces built from self or from spaces in the tree of self
+        self.clear_subs_rootitems()
+        for space in self.named_spaces.values():
+            space.clear_tree_rootitems()
+
 
 _user_space_impl_base = (
     DynamicBase,
@@ -1907,6 +1913,12 @@ class UserSpaceImpl(*_user_space_impl_base):
             else:   # defined
                 selfdict[name] = selfdict.pop(name)
 
+    def on_delete(self):
+        # Discard the ItemSpaces of self and those built from self
+        self.del_all_itemspaces()
+        self.clear_subs_rootitems()
+        super().on_delete()
+
     def on_del_cells(self, name):
         cells = self.cells[name]
         self.clear_subs_rootitems()
@@ -1973,6 +1985,7 @@ class UserSpaceImpl(*_user_space_impl_base):
     def on_rename(self, name):
         self.model.clear_obj(self)
         self.clear_all_cells(clear_input=True, recursive=True, del_items=True)
+        self.clear_tree_rootitems()
         self.clear_uncached_cells_callers(recursive=True)
         self.clear_refs_referrers(recursive=True)
         old_name = self.name
